@@ -20,8 +20,9 @@ ALL_PASSES = MODELLED_LOWERED + MODELLED_RAW + UNMODELLED
 
 
 def run_passdrive(tool, programs, passes, workers=None):
-    """programs: list of (name, src) -> dict name -> passdrive result"""
-    jobs = [{"id": name, "src": src, "data": {"passes": passes}} for name, src in programs]
+    """programs: list of (name, src) -> dict name -> passdrive result; passes: list, or function name -> list"""
+    pf = passes if callable(passes) else (lambda _n: passes)
+    jobs = [{"id": name, "src": src, "data": {"passes": pf(name)}} for name, src in programs]
     return nagarun.parallel_batches(tool, "run", jobs, workers=workers, per_job_timeout=60.0, chunk=8)
 
 
